@@ -198,12 +198,15 @@ func (x *Exec) dispatch(st *State, fr *Frame, dst ssa.Value, c *ssa.CallCommon, 
 		x.applyContract(st, fr, dst, callee, fc, args, freeVars, pos, true)
 		return
 	}
-	if callee.Blocks != nil && (strings.HasPrefix(callee.Package().Pkg.Path(), modulePath) || callee.Synthetic != "") && len(st.Frames) < 6 {
+	inModule := callee.Package() != nil && callee.Package().Pkg != nil && strings.HasPrefix(callee.Package().Pkg.Path(), modulePath)
+	if callee.Blocks != nil && (inModule || (callee.Synthetic != "" && !strings.HasPrefix(callee.Synthetic, "instance of"))) && len(st.Frames) < 6 {
 		x.inline(st, fr, dst, callee, args, freeVars, isDefer)
 		return
 	}
-	// external function without contract: total, effect-free, fresh result (trusted, listed)
-	x.note("extern " + full + ": assumed total, effect-free, result unconstrained")
+	// external function without contract: total; may rewrite what its arguments point to directly
+	// (slice elements, pointed-to structs, map contents); result unconstrained (trusted, listed)
+	x.note("extern " + full + ": assumed total; may modify only the elements/fields/entries its arguments directly reference; result unconstrained")
+	x.havocArgTargets(st, args)
 	x.bindFresh(st, fr, dst, callee.Signature, "ext$"+sanitize(callee.Name()))
 }
 
@@ -1814,4 +1817,62 @@ func generalizeFrame(g *Term) *Term {
 	}
 	bv := BoundVar("r", rc.Sort)
 	return Forall([]*Term{bv}, Subst(g, map[string]*Term{rc.Op: bv}))
+}
+
+// havocArgTargets: an unmodelled external callee may write through its slice, pointer and map arguments.
+func (x *Exec) havocArgTargets(st *State, args []*Val) {
+	for _, a := range args {
+		if a == nil || a.T == nil {
+			continue
+		}
+		switch t := a.T.Underlying().(type) {
+		case *types.Slice:
+			if a.Fields == nil {
+				continue
+			}
+			if b, ok := t.Elem().Underlying().(*types.Interface); ok && b != nil {
+				continue // variadic ...interface{} packs: opaque values
+			}
+			var ls []leafInfo
+			leaves(t.Elem(), "", &ls)
+			for _, l := range ls {
+				key := sliceHeapKey(t.Elem(), l.Path)
+				h := st.heapGet(key, ArrSort(SInt, ArrSort(SInt, l.Sort)))
+				st.Heap[key] = Store(h, a.Fields[0].Term, Fresh("extw$"+key, ArrSort(SInt, l.Sort)))
+			}
+		case *types.Pointer:
+			if a.Term == nil || a.Cell != nil || a.FP != nil {
+				continue
+			}
+			if ns := namedStruct(t.Elem()); ns != nil {
+				if strings.HasPrefix(typeName(ns), "sync.") {
+					continue
+				}
+				var ls []leafInfo
+				leaves(ns, "", &ls)
+				for _, l := range ls {
+					key := heapKeyField(ns, l.Path)
+					h := st.heapGet(key, ArrSort(SInt, l.Sort))
+					st.Heap[key] = Store(h, a.Term, Fresh("extw$"+key, l.Sort))
+				}
+			}
+		case *types.Map:
+			if a.Term == nil {
+				continue
+			}
+			regMapSorts(t)
+			hk, lk, vp := mapKeys(t)
+			fams := []string{hk, lk}
+			var mls []leafInfo
+			leaves(t.Elem(), "", &mls)
+			for _, ml := range mls {
+				fams = append(fams, vp+"$"+ml.Path)
+			}
+			for _, f := range fams {
+				h := st.heapGet(f, heapSorts[f])
+				_, es := arrParts(heapSorts[f])
+				st.Heap[f] = Store(h, a.Term, Fresh("extw$"+f, es))
+			}
+		}
+	}
 }
